@@ -461,7 +461,7 @@ func execute(sc scenario) (res result) {
 		oldPids[q.Pid] = true
 	}
 	target := getP()
-	if hasBlockingStart {
+	if hasBlockingStart && (sc.Stop != "deadline" || time.Now().Before(deadlineAt)) {
 		select {
 		case <-callDone:
 			res.Inconclusive = "the call returned by itself before the stop request"
@@ -582,6 +582,98 @@ func execute(sc scenario) (res result) {
 }
 
 // ---------------------------------------------------------------------------------------------
+// runs that are NOT cancelled must be left alone by the repair: Execute / Output wait for a descendant that still
+// writes to the inherited pipes after the direct child has exited, return nil, and deliver its late output.
+
+type collectLoggers struct {
+	mu    sync.Mutex
+	lines []string
+}
+
+func (l *collectLoggers) Close() error                 { return nil }
+func (l *collectLoggers) Check() error                 { return nil }
+func (l *collectLoggers) SetLogSource(string) error    { return nil }
+func (l *collectLoggers) SetLoggerSource(string) error { return nil }
+func (l *collectLoggers) Log(o ...interface{}) {
+	l.mu.Lock()
+	l.lines = append(l.lines, fmt.Sprint(o...))
+	l.mu.Unlock()
+}
+func (l *collectLoggers) LogError(o ...interface{}) { l.Log(o...) }
+func (l *collectLoggers) text() string {
+	l.mu.Lock()
+	defer l.mu.Unlock()
+	return strings.Join(l.lines, "\n")
+}
+
+type plainRun struct {
+	Script string `json:"script"`
+	Via    string `json:"via"`     // execute | output
+	LateMs int    `json:"late_ms"` // the descendant writes its last line this long after the start
+	Late   string `json:"late"`    // that line
+}
+
+type plainResult struct {
+	Err       string `json:"err,omitempty"`
+	ElapsedMs int64  `json:"elapsed_ms"`
+	SawEarly  bool   `json:"saw_early"`
+	SawLate   bool   `json:"saw_late"`
+}
+
+func runPlain(pr plainRun) (res plainResult) {
+	seqMu.Lock()
+	caseSeq++
+	tag := fmt.Sprintf("%d", caseSeq)
+	seqMu.Unlock()
+	defer killCase(tag)
+	env := []string{"VERIF_C05_RUN=" + runID, "VERIF_C05_CASE=" + runID + "-" + tag}
+	lg := &collectLoggers{}
+	ctx, cancel := context.WithCancel(context.Background())
+	defer cancel()
+	t0 := time.Now()
+	var err error
+	out := ""
+	switch pr.Via {
+	case "output":
+		out, err = subprocess.OutputWithEnvironment(ctx, lg, env, "sh", "-c", pr.Script, "c05-"+runID+"-"+tag)
+	default:
+		var p *subprocess.Subprocess
+		p, err = subprocess.NewWithEnvironment(ctx, lg, env, "", "", "", "sh", "-c", pr.Script, "c05-"+runID+"-"+tag)
+		if err == nil {
+			err = p.Execute()
+		}
+	}
+	res.ElapsedMs = time.Since(t0).Milliseconds()
+	if err != nil {
+		res.Err = err.Error()
+	}
+	all := out + "\n" + lg.text()
+	res.SawEarly = strings.Contains(all, "early")
+	res.SawLate = strings.Contains(all, pr.Late)
+	return
+}
+
+func plainVerdict(pr plainRun, res plainResult) (sig, what string) {
+	switch {
+	case res.Err != "":
+		return "uncancelled-run-cut-short", "an Execute/Output that nobody cancelled returned an error although the command and its descendants succeeded: " + res.Err
+	case res.ElapsedMs < int64(pr.LateMs)-100:
+		return "uncancelled-run-cut-short", fmt.Sprintf("an Execute/Output that nobody cancelled returned after %d ms, before its descendant (which holds the output pipe) had finished at %d ms", res.ElapsedMs, pr.LateMs)
+	case !res.SawEarly || !res.SawLate:
+		return "uncancelled-run-cut-short", fmt.Sprintf("output of an un-cancelled run is incomplete: early line seen=%v, descendant's late line seen=%v", res.SawEarly, res.SawLate)
+	}
+	return "", ""
+}
+
+var plainRuns = []plainRun{
+	{Script: "(sleep 0.7; echo late) & echo early", Via: "execute", LateMs: 700, Late: "late"},
+	{Script: "(sleep 0.7; echo late) & echo early", Via: "output", LateMs: 700, Late: "late"},
+	{Script: "( (sleep 0.9; echo latest) & sleep 0.3; echo late1 ) & echo early", Via: "execute", LateMs: 900, Late: "latest"},
+	{Script: "(trap '' TERM; sleep 0.5; echo late >&2) & echo early; exit 0", Via: "execute", LateMs: 500, Late: "late"},
+	{Script: "(sleep 2.6; echo late) & echo early", Via: "execute", LateMs: 2600, Late: "late"}, // longer than any plausible WaitDelay of a repair
+}
+
+// ---------------------------------------------------------------------------------------------
 // oracle (independent of the Coq model)
 
 func shapeClass(t node) string {
@@ -598,6 +690,8 @@ func verdict(sc scenario, res result) (sig, what string) {
 	}
 	mode := sc.Start + ":" + sc.Stop
 	switch {
+	case !res.Returned && res.Survivors == 0 && outsideHolder(sc.Tree):
+		return "no-return:outside-holder", fmt.Sprintf("the whole process group is dead but the call did not return within %v: it waits for a descendant that left the group and holds the output pipes (no WaitDelay)", returnBound)
 	case !res.Returned:
 		return "no-return:" + mode, fmt.Sprintf("the call did not return (IsOn did not go false) within %v of the stop request; %d in-group processes of the tree alive, IsOn=%v", returnBound, res.Survivors, res.IsOn)
 	case res.Survivors > 0:
@@ -701,6 +795,9 @@ func genTree(r *h.Run, depth int) node {
 			k := genTree(r, depth-1)
 			k.NoPipe = r.Rng.Intn(4) == 0
 			k.Setsid = r.Rng.Intn(12) == 0
+			if k.Setsid {
+				k.NoPipe = true // an outside pipe holder is the known finding no-return:outside-holder, replayed separately
+			}
 			n.Kids = append(n.Kids, k)
 		}
 		n.Exit = r.Rng.Intn(5) == 0
@@ -723,6 +820,24 @@ func holdsPipeInGroup(n node) bool {
 	return false
 }
 
+// outsideHolder: some process that does not end by itself has left the group (setsid, or below a setsid) and still holds
+// the inherited output pipes. Without a WaitDelay, Wait then outlives the group (known finding no-return:outside-holder).
+func outsideHolder(n node) bool {
+	var rec func(n node, holds, out bool) bool
+	rec = func(n node, holds, out bool) bool {
+		if holds && out && !exits(n) {
+			return true
+		}
+		for _, k := range n.Kids {
+			if rec(k, holds && !k.NoPipe, out || k.Setsid) {
+				return true
+			}
+		}
+		return false
+	}
+	return rec(n, true, false)
+}
+
 // admissible: combinations in which the subprocess is running (in the sense of the API) when the stop comes.
 func admissible(sc scenario) bool {
 	exits := exits(sc.Tree)
@@ -734,6 +849,9 @@ func admissible(sc scenario) bool {
 	}
 	if sc.Start == "supervisor" && (sc.Stop == "stop" || sc.Stop == "restart" || sc.Stop == "cancel") {
 		return false // the supervisor's own API is its context; stopping the inner command makes it restart it, by design
+	}
+	if outsideHolder(sc.Tree) {
+		return false // known finding (no WaitDelay: Wait outlives the group), replayed first on every run
 	}
 	if sc.Start == "execute" && (sc.Stop == "stop" || sc.Stop == "restart") {
 		return false // known finding (Stop/Restart wait for the lock Execute holds): replayed first on every run, see findingReplays
@@ -763,6 +881,25 @@ func main() {
 		r.Finish()
 	}
 
+	var pl struct {
+		Plain *plainRun `json:"plain"`
+	}
+	if _, ok := r.ReplayObject(&pl); ok && pl.Plain != nil {
+		bad := 0
+		var sig, wh string
+		for a := 0; a < 3; a++ {
+			res := runPlain(*pl.Plain)
+			r.Eval()
+			if sig, wh = plainVerdict(*pl.Plain, res); sig != "" {
+				bad++
+			}
+		}
+		if bad == 3 {
+			r.Fail(sig, wh, pl)
+		}
+		finish()
+		return
+	}
 	var sc scenario
 	if _, ok := r.ReplayObject(&sc); ok {
 		o := runOne(sc)
@@ -782,6 +919,30 @@ func main() {
 		for _, sp := range []string{"stop", "restart"} {
 			replays = append(replays, scenario{Tree: t, Start: "execute", Stop: sp, DelayMs: -1})
 		}
+	}
+	awayPipe := fan(leaf(), with(leaf(), func(n *node) { n.Setsid = true })) // a descendant leaves the group, holding the pipes
+	replays = append(replays, scenario{Tree: awayPipe, Start: "execute", Stop: "ctx", DelayMs: -1},
+		scenario{Tree: awayPipe, Start: "start", Stop: "stop", DelayMs: -1})
+	type plainOut struct {
+		res      plainResult
+		sig, wh  string
+		attempts int
+	}
+	pOut := make([]plainOut, len(plainRuns))
+	var pwg sync.WaitGroup
+	for i := range plainRuns {
+		pwg.Add(1)
+		go func(i int) {
+			defer pwg.Done()
+			for a := 1; a <= 3; a++ { // reported only if it fails 3 of 3
+				res := runPlain(plainRuns[i])
+				sig, wh := plainVerdict(plainRuns[i], res)
+				pOut[i] = plainOut{res, sig, wh, a}
+				if sig == "" {
+					return
+				}
+			}
+		}(i)
 	}
 	var rwg sync.WaitGroup
 	rOut := make([]outcome, len(replays))
@@ -843,6 +1004,20 @@ func main() {
 	}
 
 	outs := runAll(scs, 8)
+	pwg.Wait()
+	for i, o := range pOut {
+		r.Evals(o.attempts)
+		r.Count("uncancelled-run")
+		js, _ := json.Marshal(plainRuns[i])
+		r.Distinct("plain:" + string(js))
+		r.Sample(map[string]any{"uncancelled_run": plainRuns[i], "observed": o.res})
+		if o.sig != "" {
+			r.Fail(o.sig, o.wh, map[string]any{"plain": plainRuns[i]})
+		}
+		if probe {
+			fmt.Fprintf(os.Stderr, "PROBE plain %s -> %+v [%s]\n", js, o.res, o.sig)
+		}
+	}
 	rwg.Wait()
 	for i, o := range rOut {
 		r.Evals(3)
